@@ -13,6 +13,8 @@
 // obs:   <run> ~ <run>     first run: the packet as given; second run: the same packet with
 //        SenderId/ReceiverId/Token zeroed, in a fresh identical world
 //   run = ret <0|1> rsp <n|o|f> view <refs|-> chg <refs|-> dlv <conn#:cmdType:sender,…|-> gone <conn#,…|->
+//   rsp: class of the CommandResp packets the sender got; dlv: command packets pushed to any connection
+//   (including the sender's own); view: pre-existing objects whose id/secret the sender was shown
 package main
 
 import (
@@ -591,12 +593,15 @@ func runOnce(k *kase, claimed bool) string {
 		}
 		after := w.snapshot(ids)
 
-		// response class: what the origin connection received
+		// response class: the CommandResp packets the origin connection received
 		rsp := "n"
 		var respText strings.Builder
 		for _, p := range w.streams[k.from].snapshot() {
 			respText.WriteString(p.body)
 			respText.WriteString("\n")
+			if !p.ptype.IsCommandResp() {
+				continue // a command pushed to the origin itself: listed under dlv
+			}
 			var m map[string]any
 			ok := false
 			if json.Unmarshal([]byte(p.body), &m) == nil {
@@ -634,8 +639,14 @@ func runOnce(k *kase, claimed bool) string {
 		chg = append(chg, diffOne("d", w.domIDs, before.doms, after.doms, before.domO, after.domO)...)
 		var dlv, gone []string
 		for i, fs := range w.streams {
-			if i != k.from {
+			{
 				for _, p := range fs.snapshot() {
+					if p.ptype.IsCommandResp() {
+						if i != k.from {
+							dlv = append(dlv, fmt.Sprintf("%d:resp%d:-", i, p.ctype)) // a response sent to someone who did not ask
+						}
+						continue
+					}
 					sender := "-"
 					var m map[string]any
 					if json.Unmarshal([]byte(p.body), &m) == nil {
